@@ -92,7 +92,30 @@ var externalCheck = &core.Check{Name: "c04/external", Quick: 600, Thorough: 6000
 	}
 	c.NonTrivial(want.ReprHash())
 	c.Note("schema_cell", "x{"+want.Bits().FiftHex()+"}")
-	return sameAsRef(cell, want, "CreateExternalMessage")
+	if err := sameAsRef(cell, want, "CreateExternalMessage"); err != nil {
+		return err
+	}
+	// the encoded message is a value of its own: a caller that goes on building in its body cell (more bits,
+	// another reference) does not change the cell that was produced for the message before
+	wrote := 0
+	for i := 0; i < 9 && tb.BitsAvailableForWrite() > 0; i++ {
+		if tb.WriteBit(true) != nil {
+			break
+		}
+		wrote++
+	}
+	if tb.RefsSize() < 4 {
+		if tb.AddRef(boc.NewCell()) == nil {
+			wrote++
+		}
+	}
+	if wrote > 0 {
+		c.Class("caller wrote into its body cell after the encoding")
+		if err := sameAsRef(cell, want, "CreateExternalMessage, after the caller went on writing into its own body cell,"); err != nil {
+			return err
+		}
+	}
+	return nil
 }}
 
 func TestExternal(t *testing.T) { core.Run(t, externalCheck) }
